@@ -3,6 +3,7 @@
    of the emitted expression under each assignment. Core Lean only. -/
 import Cel.Drv.C06
 import Cel.Model.Xlate
+import Cel.Model.XlateText
 namespace Cel.Drv.C18
 open Cel Cel.Grammar Cel.Xlate Cel.Drv
 
@@ -26,10 +27,33 @@ def rho (s : String) : String → Bool :=
 
 def bits (bs : List Bool) : String := String.ofList (bs.map fun b => if b then '1' else '0')
 
+mutual
+/-- the clause expressions of a filter, in leaf order -/
+def clausesOf : Filter → List PExpr
+  | .prim c => [c]
+  | .and fs => clausesOfAll fs
+  | .or fs => clausesOfAll fs
+  | .not fs => clausesOfAll fs
+  | .list fs => clausesOfAll fs
+def clausesOfAll : Filters → List PExpr
+  | .nil => []
+  | .cons f r => clausesOf f ++ clausesOfAll r
+end
+
 def handle : Handler
   | "F" :: rest =>
       match rdF rest with
-      | some (f, "R" :: asg) =>
+      | some (f, "R" :: asgx) =>
+          -- `R assignments… [X text…]`: the texts (hex) are scanned by the character-level scanner
+          let (asg, xs) := asgx.span (· != "X")
+          let texts := (xs.drop 1).map fun h => (C06.unhex h).map (·.toList)
+          let scan := String.ofList (texts.map fun t => match t with
+            | some cs => if topLevelLogicText cs then '1' else '0'
+            | none => '?')
+          let cls := clausesOf f
+          let lexok := cls.all fun c => (render c).all lexOK
+          -- the theorem `scanner_text_eq_tokens`, observed: character scanner on the spelled-out tokens vs. token scanner
+          let thm := cls.all fun c => topLevelLogicText (textOf (render c)) == topLevelLogic (render c)
           let ts := emit f
           let e? := exprOf 0 f
           let p? := parse ts
@@ -48,8 +72,16 @@ def handle : Handler
             "strip=" ++ (match e? with | some e => (strip (toTree e)).show | none => "none"),
             "values=" ++ vals,
             "denote=" ++ den,
+            "scan=" ++ scan,
+            "lexok=" ++ C06.b01 lexok,
+            "thm=" ++ C06.b01 (thm || !lexok),
             "old=" ++ C06.showToks (logicalConnectorOld 0 f)]
       | _ => "bad-op"
+  | "T" :: rest =>
+      -- the character scanner on texts: `T x<hex>…`
+      String.ofList (rest.map fun h => match (C06.unhex h).map (·.toList) with
+        | some cs => if topLevelLogicText cs then '1' else '0'
+        | none => '?')
   | "S" :: rest =>
       -- the scanner on a token string: `S TOK…`
       match rest.mapM C06.readTok with
